@@ -414,7 +414,8 @@ func c06RunCase(c *Ctx, raw []byte) string {
 }
 
 // c06Exec builds the value once, then encodes it under every explored map order.
-func c06Exec(c *Ctx, cs c06Case) string {
+func c06Exec(c *Ctx, cs c06Case) (outcome string) {
+	defer c.guardCase("encoding", cs, &outcome)
 	feat := map[string]string{"mode": cs.Mode, "target": cs.Target, "subject": cs.Subject}
 	viol := func(class, ptr, exp, obs, detail string) {
 		f := map[string]string{}
@@ -462,11 +463,24 @@ func c06Exec(c *Ctx, cs c06Case) string {
 	var first []byte
 	var firstErr error
 	nexec := 0
-	outcome := "ok"
+	outcome = "ok"
 	ex := &Explorer{Bound: 2, MapOrder: true, MaxExec: 4000}
 	var out []byte
 	var err error
+	panicked := ""
 	ex.Explore(func() {
+		defer func() {
+			if r := recover(); r != nil {
+				if _, own := r.(verifrt.Divergence); own {
+					panic(r)
+				}
+				if _, own := r.(harnessBug); own {
+					panic(r)
+				}
+				panicked = fmt.Sprint(r)
+				out, err = nil, fmt.Errorf("panic: %v", r)
+			}
+		}()
 		out, err = json.Marshal(value)
 	}, func(tr []verifrt.Point) {
 		nexec++
@@ -483,6 +497,10 @@ func c06Exec(c *Ctx, cs c06Case) string {
 	})
 	c.Res.Transitions += ex.Points + ex.Executions
 	c.Count("encodings", ex.Executions)
+	if panicked != "" {
+		viol("panic", "", "an error or valid JSON", "", "encoding panicked: "+panicked)
+		return "panic"
+	}
 	if ex.Capped {
 		c.Note("map-order exploration capped at 4000 executions for some values")
 		c.Res.Exhaustive = false
@@ -579,7 +597,7 @@ func c06Run(c *Ctx) {
 		}
 	})
 	// B. x-order product: 2 and 3 properties, every combination of order values (ties, strings, non-integers)
-	orders := []string{``, `0`, `1`, `1.0`, `"1"`, `"x"`, `1.5`, `2`, `-1`, `true`}
+	orders := []string{``, `0`, `1`, `1.0`, `"1"`, `"x"`, `1.5`, `2`, `-1`, `true`, `-2`, `{}`, `[1]`, `null`}
 	names := []string{"b", "a", "c"}
 	mk := func(vals []string) json.RawMessage {
 		var b bytes.Buffer
@@ -665,7 +683,7 @@ func c06Run(c *Ctx) {
 func init() {
 	register(&CheckDef{
 		ID: "C06", Build: "instr", Run: c06Run, RunCase: c06RunCase,
-		Rule: "states = (A) C01 documents (cost <= bound, every route) decoded into their type, (B) every assignment of 10 x-order values to 2 and 3 properties, (C) every distinct value reachable by <= bound calls of the builder API of Schema/Response/Operation/Parameter/Header/Items with hostile names (breadth-first, de-duplicated on the encoding); each value is encoded under every explored map iteration order (deviation bound 2); oracles: error or valid JSON, no repeated member, byte-identical across orders, equals the reference model of the builder calls, properties ordered by (x-order, name)",
+		Rule: "states = (A) C01 documents (cost <= bound, every route) decoded into their type, (B) every assignment of 14 x-order values (integers, negative ones, numeric strings, non-integers, booleans, null, objects and arrays) to 2 and 3 properties, (C) every distinct value reachable by <= bound calls of the builder API of Schema/Response/Operation/Parameter/Header/Items with hostile names (breadth-first, de-duplicated on the encoding); each value is encoded under every explored map iteration order (deviation bound 2); oracles: error or valid JSON, no repeated member, byte-identical across orders, equals the reference model of the builder calls, properties ordered by (x-order, name)",
 		Assumptions: []string{
 			"map iteration inside package spec is owned through the rewritten range statements; encoding/json itself sorts map keys",
 			"x-order reference: an integer, a string holding an integer or a number truncated to an integer orders the property; anything else counts as no x-order; ties are ordered by name",
